@@ -524,6 +524,20 @@ SKELETONS = [
         ("pending.continue", r"PollResult::Pending\s*=>\s*continue"),
         ("err.panic", r"PollResult::Err\s*\(\s*error\s*\)\s*=>\s*panic!"),
         ("if", r"\bif\b"), ("return", r"\breturn\b")]),
+    # constructors: which end of the pair is the one read from / registered with the reactor
+    ("src/iterator/mod.rs", "with_exfiltrator", [
+        ("pair", r"(?:UnixStream|Pipe|Async::<UnixStream>)::pair\s*\(\s*\)\s*\?"),
+        ("with_pipe.read.write", r"SignalDelivery::with_pipe\s*\(\s*read\s*,\s*write\s*,\s*exfiltrator\s*,\s*signals\s*,?\s*\)"),
+        ("with_pipe.other", r"SignalDelivery::with_pipe\s*\((?!\s*read\s*,\s*write\s*,\s*exfiltrator\s*,\s*signals\s*,?\s*\))"),
+        ("iterator.new", r"OwningSignalIterator::new\s*\(\s*inner\s*\)")]),
+    ("signal-hook-mio/src/lib.rs", "with_exfiltrator", None),
+    ("signal-hook-tokio/src/lib.rs", "with_exfiltrator", None),
+    ("signal-hook-async-std/src/lib.rs", "with_exfiltrator", None),
+    ("signal-hook-mio/src/lib.rs", "register", [
+        ("read.register", r"self\.0\.get_read_mut\s*\(\s*\)\s*\.register\s*\(\s*registry\s*,\s*token\s*,\s*interest\s*\)"),
+        ("other.register", r"(?<!get_read_mut\(\))\.register\s*\(")]),
+    ("signal-hook-mio/src/lib.rs", "pending", [
+        ("pending", r"self\.0\.pending\s*\(\s*\)"), ("flush", r"flush"), ("if", r"\bif\b")]),
     ("signal-hook-tokio/src/lib.rs", "has_signals", [
         ("poll_read", r"Pin::new\s*\(\s*read\s*\)\s*\.poll_read\s*\(\s*ctx\s*,"),
         ("pending.false", r"Poll::Pending\s*=>\s*Ok\s*\(\s*false\s*\)"),
